@@ -8,8 +8,8 @@ collection, known-findings protocol, replay files and the evidence file.
 """
 import os, sys, json, time, re, subprocess, hashlib, traceback, warnings, collections
 
-VERIF = "/verif"
-REPO = "/repo"
+VERIF = os.path.dirname(os.path.dirname(os.path.abspath(__file__)))
+REPO = os.environ.get("VERIF_REPO", "/repo")   # checks registered in MANIFEST always use /repo; the override is for mutation experiments on scratch copies
 COQ = f"{VERIF}/coq"
 FORBIDDEN = re.compile(r"\b(Admitted|admit|Axiom|Parameter|Conjecture|Abort All|bypass_check|type-in-type|impredicative-set)\b|Unset\s+Guard|Unset\s+Positivity|Unset\s+Universe|Admit\s+Obligations")
 
